@@ -37,3 +37,32 @@ Example C07_nonvacuous :
   = ([LSearching;LSearching;LSearching;LSearching;LSearching;LSearching;LSearching;LReading;
       LReading;LReading;LReading;LBurst [90;67;90;67;45;0;65]], FIdle).
 Proof. vm_compute. reflexivity. Qed.
+
+(** Bit level.  The correlator register is the last 32 bits; on a clean header or trailer burst
+    (eight or more preamble bytes, then ZCZC- / NNNN) every position that is not a byte boundary is
+    at least 7 bit errors from the sync word, so with a preamble budget of at most 6 (default 2,
+    samedec 0..5) the squelch cannot (re)synchronise off a byte boundary, whatever its other state *)
+From Sameold Require Import Model.Squelch Proofs.SyncWordP.
+Theorem C07_sync_word_ambiguity :
+  map (errs (PRE8 ++ START)) (seq 32 9) = [0; 24; 8; 24; 8; 24; 8; 24; 0].
+Proof. exact ambiguity_in_preamble. Qed.
+Print Assumptions C07_sync_word_ambiguity.
+
+Theorem C07_no_misaligned_sync_on_a_header_burst : forall me s t po pc hb s',
+  me <= 6 -> (32 <= t < 96)%nat -> (S t mod 8 <> 0)%nat ->
+  sq_corr s = corr_after (PRE8 ++ START) t ->
+  sq_input me s (bit_of (PRE8 ++ START) t) po pc <> (SqReady true hb, s').
+Proof. exact no_misaligned_sync_start. Qed.
+Print Assumptions C07_no_misaligned_sync_on_a_header_burst.
+
+Theorem C07_no_misaligned_sync_on_a_trailer_burst : forall me s t po pc hb s',
+  me <= 6 -> (32 <= t < 96)%nat -> (S t mod 8 <> 0)%nat ->
+  sq_corr s = corr_after (PRE8 ++ ENDM ++ [32]) t ->
+  sq_input me s (bit_of (PRE8 ++ ENDM ++ [32]) t) po pc <> (SqReady true hb, s').
+Proof. exact no_misaligned_sync_end. Qed.
+Print Assumptions C07_no_misaligned_sync_on_a_trailer_burst.
+
+(** the bound is tight: at budget 7 a re-synchronisation two bits into the first data byte is possible *)
+Theorem C07_budget_seven_is_too_much : errs (PRE8 ++ START) 66 = 7 /\ errs (PRE8 ++ ENDM ++ [32]) 66 = 7.
+Proof. exact budget_seven_is_too_much. Qed.
+Print Assumptions C07_budget_seven_is_too_much.
